@@ -198,6 +198,25 @@ theorem delay_in_reachable (S : SelectSem) (ds : List Int) (r i : Int) (ops : Li
 example : delayOf SelectSem.tieTimer 50 (some 20) = ⟨20, true⟩ ∧ delayOf SelectSem.tieCtx 50 (some 80) = ⟨50, false⟩ ∧
           delayOf SelectSem.tieCtx 50 none = ⟨50, false⟩ ∧ delayOf SelectSem.tieCtx 0 (some 0) = ⟨0, false⟩ := by decide
 
+/-- "Before its deadline the idle timer changes nothing", for EVERY timer step — the due-check
+step `fire` and the already-launched callback `staleFire` -/
+def C36_timer_quiet_full : Prop :=
+  ∀ (t : T) (n : Nat) (op : Op), t.hasTimer = true →
+    (op = .staleFire ∨ ∃ now, op = .fire now ∧ now < n + t.idle.toNat) →
+    apply (signal t n) op = signal t n
+
+/-- it holds for the due-check step (decidable exclusion: `op ≠ staleFire`) -/
+theorem timer_quiet_partial (t : T) (n now : Nat) (h : t.hasTimer = true) (hlt : now < n + t.idle.toNat) :
+    apply (signal t n) (.fire now) = signal t n :=
+  ((idle_resets t n now h).2 hlt).1
+
+/-- and fails for the stale callback -/
+theorem timer_quiet_witness : ¬ C36_timer_quiet_full := by
+  intro h
+  have := h (new [0, 5, 9] 1 30) 0 .staleFire (by decide) (Or.inl rfl)
+  revert this
+  decide
+
 /-- The stale-callback race the atomic `fire` step cannot show: an `AfterFunc` callback that
 was already launched when `Signal` re-armed the timer runs `Reset` afterwards — the level drops
 to zero right after a pressure signal and the freshly armed timer is stopped. The level still
